@@ -23,7 +23,8 @@ type RS struct {
 	SeekFail    bool   // Seek returns ErrInjected
 	Yield       func() // called on every Read (C05 interleaving widening)
 
-	Requested int64 // sum of len(p) over Read calls
+	Requested int64 // sum of len(p) over Read calls issued before end of input
+	EOFReads  int   // Read calls issued at end of input (they deliver nothing)
 	Delivered int64
 	Reads     int
 	ShortReads int
@@ -49,7 +50,6 @@ func (r *RS) endErr() error {
 
 func (r *RS) Read(p []byte) (int, error) {
 	r.Reads++
-	r.Requested += int64(len(p))
 	if r.Yield != nil {
 		r.Yield()
 	}
@@ -58,8 +58,10 @@ func (r *RS) Read(p []byte) (int, error) {
 	}
 	lim := r.limit()
 	if r.Pos >= lim {
+		r.EOFReads++
 		return 0, r.endErr()
 	}
+	r.Requested += int64(len(p))
 	n := int64(len(p))
 	if len(r.Sched) > 0 {
 		c := int64(r.Sched[r.si%len(r.Sched)])
@@ -112,11 +114,12 @@ func (r *RS) Seek(off int64, whence int) (int64, error) {
 
 func (r *RS) ReadAt(p []byte, off int64) (int, error) {
 	r.Reads++
-	r.Requested += int64(len(p))
 	lim := r.limit()
 	if off >= lim {
+		r.EOFReads++
 		return 0, r.endErr()
 	}
+	r.Requested += int64(len(p))
 	n := copy(p, r.Data[off:lim])
 	if n < len(p) {
 		return n, r.endErr()
